@@ -428,6 +428,13 @@ def run(ctx):
                                    ('sid', 'id'), 'C02.R5')
         msgpath.callback_typestate(ctx, CLIENT[fam], '_handle_ack',
                                    ("namespace or '/'", 'id'), 'C02.R5')
+    ctx.rule('C05.R7', 'attachments reach the pending packet; the buffer '
+             'entry is cleared before the completed packet is dispatched, so '
+             'a failing handler cannot wedge the receiver (shared rule, '
+             'server and client)', floor=30)
+    for cname, srv in (('Server', True), ('AsyncServer', True),
+                       ('Client', False), ('AsyncClient', False)):
+        msgpath.reassembly(ctx, cname, srv)
     ctx.rule('C02.R6', 'frame order: plain iteration over the encoder\'s '
              'list, each frame sent once', floor=10)
     r6_frame_order(ctx)
